@@ -132,19 +132,21 @@ func CopyRegister(o Object) Object {
 }
 
 // Deal with references and registers and return the actual value.
+// A reference always points to a strictly enclosing (shallower) environment, so a chain of
+// references is finite however long it is (a referenced variable that is deleted and looked up
+// again becomes a reference itself, so chains as long as the call depth do occur): only a chain
+// that does not move outward is a cycle.
 func Value(o Object) Object {
 	o = CopyRegister(o)
-	count := 0
 	for {
-		if r, ok := o.(Reference); ok {
-			o = r.ObjValue()
-			count++
-			if count > 100 {
-				panic("Too many references")
-			}
-			continue
+		r, ok := o.(Reference)
+		if !ok {
+			return o
 		}
-		return o
+		o = r.ObjValue()
+		if next, isRef := o.(Reference); isRef && next.RefEnv.depth >= r.RefEnv.depth {
+			panic("Reference cycle")
+		}
 	}
 }
 
